@@ -309,19 +309,19 @@ def under(d: str, p: str) -> bool:
     return p.startswith(d + "/")
 
 
-def check_removal(found, truth, before, after, where, case, *, unsafe=False, removed_ok=None):
+def check_removal(found, truth, before, after, where, case, *, unsafe=False, removed_ok=None, sources=None):
     """The oracle proper: compare two snapshots of the scratch tree taken around a cleanup."""
     files0, dirs0 = before
     files1, dirs1 = after
     removed = sorted(set(files0) - set(files1))
     for path in removed:
-        why = truth.unjustified(path, files0[path], unsafe=unsafe)
+        why = truth.unjustified(path, files0[path], unsafe=unsafe, sources=sources)
         if why is None and removed_ok is not None and not removed_ok(path):
             why = "attached-output-removed-without-all"
         if why is not None:
             finding(found, f"{why}:{where}", f"{where} removed {path}: {why}",
                     {**case, "removed": path, "content_before": files0[path],
-                     "last_written_by_a_step": truth.last_written.get(path),
+                     "contents_stepup_may_have_recorded": sorted(truth.recorded_contents(path)),
                      "role_at_last_declaration": truth.ever_output.get(path)})
     for path in sorted(set(files0) & set(files1)):
         if files0[path] != files1[path]:
@@ -373,6 +373,8 @@ def run_case(seed_key, tier: str, *, replay_only: bool = False):
     # user modifies exactly those orphans, then a cleaning build has to tell modified from unmodified.
     directed = r.random() < 0.35
     orphans: list[str] = []
+    synced = None  # the project version the database has seen (the plan steps ran on it)
+    dirty = True
     with ck.Probe() as probe, SimDirector(ck.render(model), seed=r.randint(0, 10**6)) as sim:
         probe.sim = sim
         for phase in range(nphase):
@@ -397,7 +399,7 @@ def run_case(seed_key, tier: str, *, replay_only: bool = False):
             res = sim.build(**kw)
             after = ck.snapshot(sim.root)
             records = probe.take()
-            truth.note_runs(res.runs)
+            truth.note_build(res.runs, kw.get("external", ()))
             count("builds")
             count(f"build-status-{res.status}")
             if res.status != "done":
@@ -443,14 +445,20 @@ def run_case(seed_key, tier: str, *, replay_only: bool = False):
                     for p, tok in (rec.queue or {}).items():
                         if p.endswith("/") or tok is None or p not in rec.before[0]:
                             continue
-                        modified = truth.last_written.get(p) != rec.before[0][p]
+                        modified = rec.before[0][p] not in truth.recorded_contents(p)
                         if modified and p not in rec.after[0]:
                             count("modified-queued-removed")
                         elif modified:
                             count("modified-queued-kept")
             # correspondence 5 and the oracle for `stepup clean`
             plan_failed = any(x.label in ("./plan.py", ck.SUB_CMD) and x.returncode != 0 for x in res.runs)
-            if r.random() < 0.55 and not plan_failed:
+            plan_ran = any(x.label == "./plan.py" and x.returncode == 0 for x in res.runs)
+            sub_ok = (not model.has_sub or any(x.label == ck.SUB_CMD and x.returncode == 0 for x in res.runs)
+                      or (synced is not None and [s.__dict__ for s in synced.steps if s.plan == ck.SUB] ==
+                          [s.__dict__ for s in model.steps if s.plan == ck.SUB]))
+            if not plan_failed and (not dirty or not ck.returncode_incomplete(rc) or (plan_ran and sub_ok)):
+                synced, dirty = copy.deepcopy(model), False
+            if r.random() < 0.55 and not plan_failed and synced is not None and not dirty:
                 files_now = {p: d for p, d in ck.snapshot(sim.root)[0].items()}
                 outs_on_disk = sorted(p for p in truth.ever_output if p in files_now)
                 if r.random() < 0.6 and outs_on_disk:
@@ -477,10 +485,11 @@ def run_case(seed_key, tier: str, *, replay_only: bool = False):
                     count(f"clean-tool-exception-{type(error).__name__}")
                 if ck.db_dump(sim) != dump0:
                     finding(found, "clean-tool-changed-database", "stepup clean changed the workflow database", {**case})
-                active = set(model.outputs())
+                ids = db.by_id()
+                detached = {row[2] for row in db.rows if row[1] == "file" and row[4]}
                 removed, rmdirs = check_removal(
                     found, truth, snap0, snap1, "stepup-clean", {**case, "clean_args": history[-1]}, unsafe=unsafe,
-                    removed_ok=(None if all_ else (lambda p: p not in active)))
+                    removed_ok=(None if all_ else (lambda p: p in detached)), sources=synced.sources())
                 count("clean-removed-files", len(removed))
                 count("clean-removed-dirs", len(rmdirs))
                 if not commit and (removed or rmdirs):
@@ -497,14 +506,19 @@ def run_case(seed_key, tier: str, *, replay_only: bool = False):
             applied = []
             old_outputs = set(model.outputs())
             for _ in range(r.randint(1, 2)):
-                forced = r.choice(["drop_step", "rename_output", "move_output", "out_to_vol", "drop_amend"]) \
-                    if directed and phase == 0 else None
-                model, kind = ck.mutate(r, model, forced, on_disk=set(sim.files()))
+                forced = r.sample(["drop_step", "rename_output", "move_output", "out_to_vol", "drop_amend"], 5) \
+                    if directed and phase == 0 else [None]
+                for choice in forced:
+                    newer, kind = ck.mutate(r, model, choice, on_disk=set(sim.files()))
+                    if kind != "none":
+                        break
+                model = newer
                 applied.append(kind)
                 count(f"plan-edit-{kind}")
             orphans = sorted(old_outputs - set(model.outputs())) if directed and phase == 0 else orphans
             sim.apply(ck.edits_between(old_project, ck.render(model)))
             truth.declare(model)
+            dirty = dirty or any(k != "none" for k in applied)
             history.append(("plan", applied, model_repr(model)))
             if directed and phase == 1:
                 kind, edits = ck.user_edit(r, sim.files(), orphans,
@@ -581,7 +595,7 @@ async def correspond(ctx):
     await correspond_guards(ctx)
     await correspond_remove(ctx)
     await correspond_select(ctx)
-    await run_histories(ctx, "corr-hist", ctx.budget(60, 2000), with_model=True)
+    await run_histories(ctx, "corr-hist", ctx.budget(80, 1500), with_model=True)
     ctx.stats.rule = ("kernel request sequences (a case is one request; distinct = distinct database states) + the guard "
                       "chain on all 768 (return code, targets, directory targets, clean) combinations + generated "
                       "(tree, queue) pairs for remove_deletable_files (non-trivial: something was removed) + clean "
@@ -590,7 +604,7 @@ async def correspond(ctx):
 
 
 async def search(ctx):
-    await run_histories(ctx, "oracle-hist", ctx.budget(140, 5000), with_model=False)
+    await run_histories(ctx, "oracle-hist", ctx.budget(260, 5000), with_model=False)
 
 
 async def replay(ctx, detail):
